@@ -4,6 +4,7 @@ pub mod checks;
 pub mod gen_frames;
 pub mod gen_values;
 pub mod glue;
+pub mod mock;
 pub mod runner;
 pub mod topo;
 pub mod wire;
